@@ -305,3 +305,203 @@ Proof.
         -- assumption.
 Qed.
 End Vars.
+
+(* whatever an event list allocates or pushes is in the resulting table *)
+Lemma assign_present evs : forall t is t' r, assign evs t = (is, t') ->
+  (In (EAlloc r) evs \/ In (EIns (IApush r)) evs \/ find_res t r O <> None) -> find_res t' r O <> None.
+Proof.
+  induction evs as [|v tl IH]; intros t is t' r H Hin.
+  - simpl in H. inv H. destruct Hin as [[]|[[]|Hp]]. assumption.
+  - assert (Hkeep : forall t1, (exists ext, t1 = t ++ ext) -> find_res t r O <> None -> find_res t1 r O <> None).
+    { intros t1 [ext ->] Hp. destruct (find_res t r O) as [i|] eqn:E; [rewrite (find_res_app _ ext _ _ _ E); discriminate|contradiction]. }
+    assert (Hhere : find_res (fst (intern t r)) r O <> None).
+    { pose proof (intern_points r t) as Hp. unfold points in Hp. rewrite Hp. discriminate. }
+    assert (Hnext : forall t1, (exists ext, t1 = t ++ ext) -> (v = EAlloc r \/ v = EIns (IApush r) -> t1 = fst (intern t r)) ->
+              In (EAlloc r) tl \/ In (EIns (IApush r)) tl \/ find_res t1 r O <> None).
+    { intros t1 Hext Hv. destruct Hin as [[Hq|Hq]|[[Hq|Hq]|Hp]].
+      - right. right. rewrite (Hv (or_introl Hq)). exact Hhere.
+      - left. exact Hq.
+      - right. right. rewrite (Hv (or_intror Hq)). exact Hhere.
+      - right. left. exact Hq.
+      - right. right. apply (Hkeep _ Hext Hp). }
+    destruct v as [r0|i].
+    + simpl in H. apply (IH _ _ _ r H). apply (Hnext _ (intern_ext r0 t)). intros [Hq|Hq]; inv Hq. reflexivity.
+    + assert (no_operand i \/ exists o, i = IApush o) as [Hn|[o ->]] by (destruct i; simpl; eauto).
+      * rewrite (assign_no_operand i tl t Hn) in H. destruct (assign tl t) as [is0 t2] eqn:E. inv H. apply (IH _ _ _ r E).
+        apply (Hnext t). { exists []. rewrite app_nil_r. reflexivity. } intros [Hq|Hq]; inv Hq. contradiction.
+      * simpl in H. destruct (intern t o) as [t1 a] eqn:Ei. destruct (assign tl t1) as [is0 t2] eqn:E. inv H. apply (IH _ _ _ r E).
+        replace t1 with (fst (intern t o)) by (rewrite Ei; reflexivity). apply (Hnext _ (intern_ext o t)). intros [Hq|Hq]; inv Hq. reflexivity.
+Qed.
+
+Lemma ty_eqb_refl t : ty_eqb t t = true.
+Proof. destruct t; reflexivity. Qed.
+
+Section VarsPhase.
+Variable given : list (string * value).
+Variable s : store.
+Variable tF : list rdesc.
+
+(* allocating the account / asset resources a meta() or balance() origin refers to: constants or earlier variables *)
+Lemma origin_allocs te ve e bv t vals bvs (evs0 : list event) :
+  vinv te ve e bv t vals bvs ->
+  Forall (fun v => exists r, v = EAlloc r /\ rok e r /\ (is_const r \/ (var_name r <> None /\ find_res t r O <> None))) evs0 ->
+  forall is t1, assign evs0 t = (is, t1) ->
+  is = [] /\ exists ext, t1 = t ++ ext /\ Forall is_const ext /\ tinv e t1 (vals ++ map (denote e) ext) /\
+    forall post, tF = t1 ++ post -> vm_resolve (map (concretize tF) ext) given s vals bvs = Ok (vals ++ map (denote e) ext, bvs).
+Proof.
+  intros Hi Hf is t1 Ha.
+  assert (Forall (simple_alloc t) evs0) as Hs.
+  { eapply Forall_impl; [|exact Hf]. intros v [r [-> [_ [Hc|[Hv Hp]]]]]; destruct r; simpl in *; try contradiction; auto; exfalso; apply Hv; reflexivity. }
+  destruct (assign_simple _ _ _ _ Hs Ha) as [His [ext [He Hc]]]. split; [assumption|].
+  assert (Forall (fun v => match v with EAlloc r | EIns (IApush r) => rok e r /\ rpresent t r | _ => True end) evs0) as Hf2.
+  { eapply Forall_impl; [|exact Hf]. intros v [r [-> [Hr [Hc0|[Hv Hp]]]]]; split; try assumption; destruct r; simpl in *; try contradiction; auto. }
+  destruct (assign_resolve e given s evs0 t vals bvs is t1 Ha (vi_tab _ _ _ _ _ _ _ Hi) Hf2) as [ext' [He' [Ht' Hr']]].
+  assert (ext' = ext) by (apply (app_inv_head t); congruence). subst ext'.
+  exists ext. split; [exact He|]. split; [exact Hc|]. split; [exact Ht'|]. intros post Hp. apply (Hr' tF post Hp).
+Qed.
+
+Lemma vars_phase ds : forall te te' ve e bv t vals bvs evs ve' is t',
+  vinv te ve e bv t vals bvs ->
+  chk_vars te ds = Some te' -> gen_vars ve ds = (evs, ve') -> assign evs t = (is, t') ->
+  (exists post, tF = t' ++ post) -> set_vars ds given = true ->
+  exists ext, t' = t ++ ext /\
+  match resolve_vars ds given s e bv with
+  | Ok (e', bv') => exists vals' bvs', vm_resolve (map (concretize tF) ext) given s vals bvs = Ok (vals', bvs') /\ vinv te' ve' e' bv' t' vals' bvs'
+  | Err x => vm_resolve (map (concretize tF) ext) given s vals bvs = Err x
+  | Panic => False
+  end.
+Proof.
+  induction ds as [|d tl IH]; intros te te' ve e bv t vals bvs evs ve' is t' Hi Hk Hg Ha HtF Hsv; simpl in Hk, Hg, Hsv.
+  - inv Hk. inv Hg. simpl in Ha. inv Ha. exists []. rewrite app_nil_r. split; [reflexivity|].
+    simpl. exists vals, bvs. split; [reflexivity|assumption].
+  - destruct (declared te (vname d)) eqn:Ed; [discriminate|].
+    set (r := match vorigin d with
+              | ONone => RVar (vty d) (vname d)
+              | OMeta a k => RVarMeta (vty d) (vname d) (res_acc ve a) k
+              | OBalance a s0 => RVarBal (vname d) (res_acc ve a) (res_asset ve s0)
+              end).
+    set (evs0 := match vorigin d with
+                 | ONone => []
+                 | OMeta a k => [EAlloc (res_acc ve a)]
+                 | OBalance a s0 => [EAlloc (res_acc ve a); EAlloc (res_asset ve s0)]
+                 end).
+    assert (var_name r = Some (vname d)) as Hr by (unfold r; destruct (vorigin d); reflexivity).
+    destruct (match vorigin d with ONone => true | OMeta a _ => chk_acc te a | OBalance a s0 => ty_eqb (vty d) TMonetary && chk_acc te a && chk_asset te s0 end) eqn:Ho; [|discriminate].
+    assert (exists rest, gen_vars (ve ++ [(vname d, r)]) tl = (rest, ve') /\ evs = evs0 ++ [EAlloc r] ++ rest) as [rest [Hg' He]].
+    { unfold r, evs0. destruct (vorigin d) as [|a k|a s0]; destruct (gen_vars _ tl) as [rest ve''] eqn:Eg; inv Hg; exists rest; split; reflexivity. }
+    subst evs. rewrite assign_app in Ha. destruct (assign evs0 t) as [i0 t1] eqn:E0.
+    simpl in Ha.
+    assert (fst (intern t1 r) = fst (intern1 t1 r)) as Hint by (unfold r; destruct (vorigin d); reflexivity).
+    rewrite Hint in Ha. destruct (assign rest (fst (intern1 t1 r))) as [i2 t2] eqn:E2. injection Ha as His Ht2. subst is t'.
+    (* typing facts for the origin *)
+    pose proof (vi_cons _ _ _ _ _ _ _ Hi) as Ic. pose proof (vi_ve _ _ _ _ _ _ _ Hi) as Ive.
+    assert (Hrokve : forall y r0, lookup ve y = Some r0 -> rok e r0) by (intros y r0 Hl; apply (vi_rok _ _ _ _ _ _ _ Hi _ _ Hl)).
+    assert (Hacc : forall a, chk_acc te a = true ->
+              rok e (res_acc ve a) /\ denote e (res_acc ve a) = XV (VAccount (eval_acc e a)) /\ closed te (res_acc ve a) /\
+              (is_const (res_acc ve a) \/ (var_name (res_acc ve a) <> None /\ find_res t (res_acc ve a) O <> None))).
+    { intros a Hc. split; [apply (rok_acc te e ve Ic Ive Hrokve a Hc)|]. split; [apply (denote_acc te e ve Ic Ive a Hc)|].
+      destruct a as [sa|y]; simpl; [split; [intros z []|left; exact I]|].
+      destruct (Ive _ _ (has_ty_lookup te _ _ Hc)) as [r0 [Hl Hn]]. unfold rvar. rewrite Hl.
+      destruct (vi_rok _ _ _ _ _ _ _ Hi _ _ Hl) as [_ [P C]]. split; [assumption|]. right. split; [congruence|assumption]. }
+    assert (Hasset : forall a, chk_asset te a = true ->
+              rok e (res_asset ve a) /\ denote e (res_asset ve a) = XV (VAsset (eval_asset e a)) /\ closed te (res_asset ve a) /\
+              (is_const (res_asset ve a) \/ (var_name (res_asset ve a) <> None /\ find_res t (res_asset ve a) O <> None))).
+    { intros a Hc. split; [apply (rok_asset te e ve Ic Ive Hrokve a Hc)|]. split; [apply (denote_asset te e ve Ic Ive a Hc)|].
+      destruct a as [sa|y]; simpl; [split; [intros z []|left; exact I]|].
+      destruct (Ive _ _ (has_ty_lookup te _ _ Hc)) as [r0 [Hl Hn]]. unfold rvar. rewrite Hl.
+      destruct (vi_rok _ _ _ _ _ _ _ Hi _ _ Hl) as [_ [P C]]. split; [assumption|]. right. split; [congruence|assumption]. }
+    (* the origin's resources *)
+    assert (Forall (fun v => exists r0, v = EAlloc r0 /\ rok e r0 /\ (is_const r0 \/ (var_name r0 <> None /\ find_res t r0 O <> None))) evs0) as Hf0.
+    { unfold evs0. destruct (vorigin d) as [|a k|a s0]; [constructor| |].
+      - destruct (Hacc a Ho) as [R1 [_ [_ R4]]]. constructor; [eexists; eauto|constructor].
+      - apply andb_prop in Ho. destruct Ho as [Ho Hs0]. apply andb_prop in Ho. destruct Ho as [_ Ha0].
+        destruct (Hacc a Ha0) as [R1 [_ [_ R4]]]. destruct (Hasset s0 Hs0) as [S1 [_ [_ S4]]].
+        constructor; [eexists; eauto|constructor; [eexists; eauto|constructor]]. }
+    destruct (origin_allocs te ve e bv t vals bvs evs0 Hi Hf0 i0 t1 E0) as [Hi0 [ext0 [Ht1 [Hc0 [Hta Hr0]]]]]. subst i0 t1.
+    destruct (const_facts ext0 Hc0) as [Tv0 [Cc0 Cn0]].
+    (* the variable itself is new *)
+    assert (find_res (t ++ ext0) r O = None) as Hnew.
+    { apply (find_res_var_none _ _ (vname d) Hr). intros r' Hin Hq. apply in_app_or in Hin. destruct Hin as [Hin|Hin].
+      - pose proof (vi_names _ _ _ _ _ _ _ Hi _ _ Hin Hq). congruence.
+      - apply (Cn0 _ _ Hin Hq). }
+    unfold intern1 in E2. rewrite Hnew in E2. simpl in E2.
+    destruct HtF as [post HtF].
+    destruct (assign_ext _ _ _ _ E2) as [ext2 Hext2].
+    assert (tF = (t ++ ext0) ++ ([r] ++ ext2 ++ post)) as HtF0 by (rewrite HtF, Hext2, <- !app_assoc; reflexivity).
+    (* reading the origin's resources from the table *)
+    assert (Hread : forall r0, In (EAlloc r0) evs0 -> nth_error (vals ++ map (denote e) ext0) (addr_of tF r0) = Some (denote e r0)).
+    { intros r0 Hin. apply (lookup_tab e (t ++ ext0) _ tF ([r] ++ ext2 ++ post) r0 Hta); [|exact HtF0].
+      apply (assign_present _ _ _ _ r0 E0). left. assumption. }
+    assert (Hlen : List.length (vals ++ map (denote e) ext0) = List.length (t ++ ext0)) by apply Hta.
+    (* common tail: once the variable has value v, continue with the rest of the block *)
+    assert (Hcont : forall v bv1 bvs1, ty_of v = vty d -> rok (e ++ [(vname d, v)]) r -> closed (te ++ [(vname d, vty d)]) r ->
+              denote (e ++ [(vname d, v)]) r = XV v ->
+              (bv1 = bv /\ bvs1 = bvs \/ exists k, bv1 = bv ++ [(vname d, k)] /\ bvs1 = bvs ++ [(List.length (t ++ ext0), k)]) ->
+              set_vars tl given = true ->
+              vm_resolve [concretize tF r] given s (vals ++ map (denote e) ext0) bvs = Ok ((vals ++ map (denote e) ext0) ++ [XV v], bvs1) ->
+              exists ext, t2 = t ++ ext /\
+                match resolve_vars tl given s (e ++ [(vname d, v)]) bv1 with
+                | Ok (e', bv') => exists vals' bvs', vm_resolve (map (concretize tF) ext) given s vals bvs = Ok (vals', bvs') /\ vinv te' ve' e' bv' t2 vals' bvs'
+                | Err x0 => vm_resolve (map (concretize tF) ext) given s vals bvs = Err x0
+                | Panic => False
+                end).
+    { intros v bv1 bvs1 Hty Hrk Hcl Hden Hb Hsv' Hvm.
+      pose proof (vinv_step te ve e bv t vals bvs (vname d) (vty d) r v ext0 bv1 bvs1 Hi Ed Hr Hty Hc0 Hta Hrk Hcl Hden Hb) as Hi1.
+      destruct (IH _ _ _ _ _ _ _ _ _ _ _ _ Hi1 Hk Hg' E2 (ex_intro _ post HtF) Hsv') as [extr [Her Hm]].
+      exists (ext0 ++ [r] ++ extr). split; [rewrite Her, <- !app_assoc; reflexivity|].
+      assert (Heq : vm_resolve (map (concretize tF) (ext0 ++ [r] ++ extr)) given s vals bvs =
+                    vm_resolve (map (concretize tF) extr) given s ((vals ++ map (denote e) ext0) ++ [XV v]) bvs1).
+      { rewrite !map_app, vm_resolve_app, (Hr0 ([r] ++ ext2 ++ post) HtF0). unfold bind at 1. cbv beta iota.
+        rewrite vm_resolve_app. change (map (concretize tF) [r]) with [concretize tF r]. rewrite Hvm. unfold bind at 1. cbv beta iota. reflexivity. }
+      rewrite Heq. exact Hm. }
+    (* an error at this variable *)
+    assert (Hfail : forall x0, vm_resolve [concretize tF r] given s (vals ++ map (denote e) ext0) bvs = Err x0 ->
+              exists ext, t2 = t ++ ext /\ vm_resolve (map (concretize tF) ext) given s vals bvs = Err x0).
+    { intros x0 Hvm. exists (ext0 ++ [r] ++ ext2). split; [rewrite Hext2, <- !app_assoc; reflexivity|].
+      rewrite !map_app, vm_resolve_app, (Hr0 ([r] ++ ext2 ++ post) HtF0). unfold bind at 1. cbv beta iota.
+      rewrite vm_resolve_app. change (map (concretize tF) [r]) with [concretize tF r]. rewrite Hvm. reflexivity. }
+    (* by origin *)
+    unfold r in *. clear r. unfold evs0 in *. clear evs0.
+    destruct (vorigin d) as [|a k|a s0] eqn:Eo; simpl resolve_vars; rewrite Eo.
+    + (* plain variable *) destruct (lookup given (vname d)) as [v|] eqn:Eg; [|discriminate].
+      apply andb_prop in Hsv. destruct Hsv as [Hsv Hsv']. apply andb_prop in Hsv. destruct Hsv as [Hty _]. apply ty_eqb_eq in Hty.
+      apply (Hcont v bv bvs Hty I).
+      * intros y [<-|[]]. rewrite declared_app, String.eqb_refl. apply orb_true_r.
+      * simpl. rewrite lookup_app, (lookup_fresh _ _ _ Ic Ed). simpl. rewrite String.eqb_refl. reflexivity.
+      * left. auto.
+      * assumption.
+      * simpl. rewrite Eg. reflexivity.
+    + (* meta *) destruct (Hacc a Ho) as [R1 [R2 [R3 R4]]].
+      assert (nth_error (vals ++ map (denote e) ext0) (addr_of tF (res_acc ve a)) = Some (XV (VAccount (eval_acc e a)))) as Hn
+        by (rewrite (Hread _ (or_introl eq_refl)); rewrite R2; reflexivity).
+      destruct (bget (st_meta s) (eval_acc e a, k)) as [v|] eqn:Em.
+      * destruct (ty_eqb (ty_of v) (vty d) && validate_value v) eqn:Ev.
+        -- apply andb_prop in Ev. destruct Ev as [Hty Hval]. apply ty_eqb_eq in Hty.
+           apply (Hcont v bv bvs Hty).
+           ++ simpl. split; [apply (rok_ext te); assumption|]. rewrite (denote_ext te e _ _ _ Ic R3), R2. eexists. reflexivity.
+           ++ intros y [<-|Hy]; [rewrite declared_app, String.eqb_refl; apply orb_true_r|apply (closed_ext te _ _ _ R3 y Hy)].
+           ++ simpl. rewrite lookup_app, (lookup_fresh _ _ _ Ic Ed). simpl. rewrite String.eqb_refl. reflexivity.
+           ++ left. auto.
+           ++ assumption.
+           ++ simpl. rewrite Hn, Em, Hty, ty_eqb_refl, Hval. reflexivity.
+        -- apply Hfail. simpl. rewrite Hn, Em, Ev. reflexivity.
+      * apply Hfail. simpl. rewrite Hn, Em. reflexivity.
+    + (* balance *) apply andb_prop in Ho. destruct Ho as [Ho Hs0]. apply andb_prop in Ho. destruct Ho as [Hty Ha0]. apply ty_eqb_eq in Hty.
+      destruct (Hacc a Ha0) as [R1 [R2 [R3 R4]]]. destruct (Hasset s0 Hs0) as [S1 [S2 [S3 S4]]].
+      assert (nth_error (vals ++ map (denote e) ext0) (addr_of tF (res_acc ve a)) = Some (XV (VAccount (eval_acc e a)))) as Hn
+        by (rewrite (Hread _ (or_introl eq_refl)); rewrite R2; reflexivity).
+      assert (nth_error (vals ++ map (denote e) ext0) (addr_of tF (res_asset ve s0)) = Some (XV (VAsset (eval_asset e s0)))) as Hm
+        by (rewrite (Hread _ (or_intror (or_introl eq_refl))); rewrite S2; reflexivity).
+      apply (Hcont (VMonetary (eval_asset e s0) None) (bv ++ [(vname d, (eval_acc e a, eval_asset e s0))])
+                   (bvs ++ [(List.length (t ++ ext0), (eval_acc e a, eval_asset e s0))])).
+      * simpl. symmetry. exact Hty.
+      * simpl. repeat split; [apply (rok_ext te); assumption|rewrite (denote_ext te e _ _ _ Ic R3), R2; eexists; reflexivity
+                             |apply (rok_ext te); assumption|rewrite (denote_ext te e _ _ _ Ic S3), S2; eexists; reflexivity].
+      * intros y [<-|Hy]; [rewrite declared_app, String.eqb_refl; apply orb_true_r|].
+        apply in_app_or in Hy. destruct Hy as [Hy|Hy]; [apply (closed_ext te _ _ _ R3 y Hy)|apply (closed_ext te _ _ _ S3 y Hy)].
+      * simpl. rewrite lookup_app, (lookup_fresh _ _ _ Ic Ed). simpl. rewrite String.eqb_refl. reflexivity.
+      * right. eexists. split; reflexivity.
+      * assumption.
+      * simpl. rewrite Hn, Hm, Hlen. reflexivity.
+Qed.
+End VarsPhase.
